@@ -31,7 +31,7 @@ def operators(repo, fix_psi, refresh):
 def check(ctx):
     repo = ctx.repo
     ctx.rule("R04.1", "every block (r,c,v) of psi_gradient/psi_laplacian is gauge covariant: v[U->U X0/X1] * X_c == X_r * v", 16)
-    ctx.rule("R04.2", "supercurrent Im(conj(psi_e0) (G psi)_k) is unchanged by the gauge transformation", 2)
+    ctx.rule("R04.2", "supercurrent is Im(conj(psi_e0) (G psi)_k) and is unchanged by the gauge transformation", 4)
     ctx.rule("R04.3", "the link variable is exp(-i A.(r_e1 - r_e0)) in builder and refresh alike", 4)
     ctx.rule("R04.4", "a constant shift of mu multiplies psi' by a global phase and leaves |psi'|^2 unchanged", 2)
     ctx.rule("R04.5", "covariant operators are written only by MeshOperators.__init__/set_link_exponents; the solver passes A_applied (+A_induced)", 3)
@@ -77,6 +77,13 @@ def check(ctx):
                 psub["psi@e0"] = T.cplx("psi@e0") * X["e0"]
                 psub["psi@e1"] = T.cplx("psi@e1") * X["e1"]
                 js2 = js.subst(psub)
+                # documented form (eq. poisson-num): Im[ conj(psi_i) (U_ij psi_j - psi_i) / e_ij ]
+                doc = (T.cplx("psi@e0").conj() * (U * T.cplx("psi@e1") - T.cplx("psi@e0")) / T.real("l", "pos")).imag()
+                ctx.ob("R04.2", f"supercurrent == Im[conj(psi_i)(U_ij psi_j - psi_i)/e_ij] ({desc})", js == doc,
+                       detail={"Js": str(js)[:300], "documented": str(doc)[:300]}, where=f_sc.fq,
+                       construct=f"get_supercurrent formula ({desc})", loc=loc(f_sc, f_sc.node),
+                       message="the edge supercurrent is not the imaginary part of conj(psi_i) times the covariant gradient",
+                       consequence="the recorded supercurrent is a different (e.g. the real) part of the gauge-invariant product")
                 ctx.ob("R04.2", f"supercurrent invariant ({desc})", js2 == js and js.is_real(),
                        detail={"Js": str(js)[:300]}, where=f_sc.fq, construct=f"get_supercurrent ({desc})",
                        loc=loc(f_sc, f_sc.node), message="supercurrent changes under a gauge transformation",
